@@ -48,6 +48,8 @@ type propSpec struct {
 	assume     []string
 	// sweeps returns deterministic scripts that enumerate a finite sub-space (run before the search)
 	sweeps func(r *vkit.Run) []*Script
+	// post runs an additional (relational) oracle on a case that produced no finding
+	post func(t *testing.T, r *vkit.Run, sc *Script, res caseResult) (kind, msg string)
 }
 
 func labelsOf(st *Stats) []string {
@@ -160,6 +162,9 @@ func runProp(t *testing.T, ps *propSpec) {
 				fmt.Printf("  finding %v %s: %s\n", f.Props, f.Kind, f.Msg)
 			}
 		}
+		if kind == "" && ps.post != nil && res.x != nil && len(res.x.Findings) == 0 {
+			kind, msg = ps.post(t, r, rf.Script, res)
+		}
 		fmt.Printf("replay %s: verdict kind=%q %s\n", r.Replay, kind, msg)
 		if kind != "" {
 			r.Violate(kind, msg, mkReplay(rf.Script, res))
@@ -222,6 +227,12 @@ func runProp(t *testing.T, ps *propSpec) {
 		if kind, msg := judge(r, ps.id, res); kind != "" {
 			r.NoteFail(kind, msg, mkReplay(sc, res))
 			rt.Fatalf("%s %s", ps.id, kind)
+		}
+		if ps.post != nil && res.x != nil && len(res.x.Findings) == 0 {
+			if kind, msg := ps.post(t, r, sc, res); kind != "" && !r.IsKnown(ps.id+"."+kind) {
+				r.NoteFail(kind, msg, mkReplay(sc, res))
+				rt.Fatalf("%s %s", ps.id, kind)
+			}
 		}
 	})
 }
